@@ -262,7 +262,7 @@ func (d *Driver) Step() {
 		{wDel, d.OpDeletePresent}, {3, d.OpDeleteAbsent}, {3, d.OpDeleteWrong},
 		{6, d.OpGetPresent}, {5, d.OpGetAbsent}, {2, d.OpIter},
 		{d.WClone, d.OpCloneSwitch}, {d.WPersist, d.OpPersist}, {d.WReload, d.OpReload}, {d.WReopen, d.OpReopenOld},
-		{d.WFault, d.OpFaulted},
+		{d.WFault, d.OpFaulted}, {2, d.OpForkAndDiscard},
 	}
 	tot := 0
 	for _, o := range ops {
@@ -552,6 +552,42 @@ func (d *Driver) OpReload() {
 	d.HadReload = true
 	d.Reloads++
 	d.C.Obs("op_reload", 1)
+}
+
+// OpForkAndDiscard clones the live tree, clones that clone, works on the second
+// generation (inserts, deletes, sometimes a persist) and throws both away. The live
+// tree and its model must not notice.
+func (d *Driver) OpForkAndDiscard() {
+	c1, err := d.T.Clone(d.E.Ctx)
+	if err != nil {
+		d.fail("clone", nil, "Clone failed on a healthy store: %v", err)
+		return
+	}
+	c2, err := c1.Clone(d.E.Ctx)
+	if err != nil {
+		d.fail("clone", nil, "Clone of a clone failed on a healthy store: %v", err)
+		return
+	}
+	d.log("fork: clone of a clone modified and discarded")
+	victim := &c2
+	if d.R.Chance(1, 3) {
+		victim = &c1
+	}
+	for i := d.R.Range(1, 4); i > 0; i-- {
+		k := d.Pool[d.R.Intn(len(d.Pool))]
+		if v, ok := d.M.Get(k); ok && d.R.Bool() {
+			victim.Delete(d.E.Ctx, k, deepCopy(v))
+		} else {
+			victim.Insert(d.E.Ctx, k, d.E.VK.Gen(d.R))
+		}
+	}
+	if d.R.Chance(1, 4) {
+		victim.MakeRoot(d.E.Ctx)
+	}
+	d.C.Obs("op_fork_and_discard", 1)
+	if d.ID == "C09" { // whatever the live tree is now, the version it persists must be well-formed
+		d.Persist()
+	}
 }
 
 // OpReopenOld abandons the live tree and continues on an EARLIER persisted
